@@ -21,3 +21,15 @@ func replaceStringAt(idx int, with string, arr []string) []string {
 	copy(res[idx+1:], arr[idx+1:])
 	return res
 }
+
+func sameStrings(a, b []string) bool {
+	if len(a) != len(b) {
+		return false
+	}
+	for i := range a {
+		if a[i] != b[i] {
+			return false
+		}
+	}
+	return true
+}
